@@ -57,6 +57,7 @@ func init() {
 			"Families <scenario> enumerate the quick bound (1 preemption; 2 for copy-only) in both tiers; the thorough-only families <scenario>+ extend the cases to bound 2 " +
 			"(3 for bodies of at most 60 scheduling points and for copy-only) and count only the schedules beyond the quick bound; work is sharded by the subtree below the first preemption. " +
 			"sharing: reflective heap walk of the runtimes of a case at rest and with all threads stopped mid-program. " +
+			"After the threads of a case have finished, every runtime and the template are observed at rest (own stack depth limit, trace limit, random source, debugger handler; the template's user state; the function queued on the template's Interrupt channel before the copies were taken must still be queued). " +
 			"RACE (supervisor side): the same cases free-running under the Go race detector.",
 		Families: fams,
 		Assumptions: []string{
@@ -212,11 +213,12 @@ func execute(sp Spec, prefix []int, inspect func(c *Case, nswitch int)) *execRes
 	}
 	s.run(c.Threads)
 	c.CheckShared("after all threads")
+	c.Finish()
 	if inspect != nil {
 		inspect(c, -1)
 	}
 	return &execResult{
-		logs:     RenderLogs(c.Logs),
+		logs:     RenderLogs(c.AllLogs()),
 		problems: strings.Join(c.Problems, " ; "),
 		choices:  s.choices(),
 		points:   s.points,
